@@ -28,7 +28,7 @@ def assumptions():
             "the model's own field reader defines 'value' (first line trimmed, comment lines dropped)"]
 
 
-VALUES = ["x", "", " pad ", "x\n y", "x\n y\n\tz", "\n y", "\n y\n z"]
+VALUES = ["x", "", " pad ", "x\n y", "x\n y\n\tz", "\n y", "\n y\n z", "x\n y \t"]
 
 
 def layouts(name, v, w):
@@ -107,6 +107,9 @@ def ops_full(doc):
             ops.append(("del", pi, f.name))
         ops.append(("set", pi, par[0].name.swapcase(), "y"))
         ops.append(("del", pi, par[-1].name.swapcase()))
+        # the field-name token as key (obtained once per history, re-used afterwards)
+        ops.append(("tset", pi, par[0].name, "t1"))
+        ops.append(("tset", pi, par[0].name, "t2\n t3"))
         # must be refused and leave everything (the field's own comment included) as it was
         ops.append(("set", pi, par[-1].name, _doc.INVALID_VALUES[0]))
         ops.append(("set", pi, par[0].name, _doc.INVALID_VALUES[1]))
